@@ -124,4 +124,399 @@ theorem c18_live_safe_unknown_pass (s : State) : LiveSafeUnknown s (cleanupUnkno
     simp only [cleanupUnknown, List.mem_filter]
     exact ⟨List.mem_map.2 ⟨r, hr, rfl⟩, by rw [hlisted _ hl]; rfl⟩
 
+
+/-- **Foreign shards are not touched** by the time-out pass: a condition whose shard this server does not lead
+    stays (whatever happened to its owner's heartbeats). -/
+theorem c18_timeout_pass_respects_leadership (s : State) (now : Nat) :
+    ∀ r ∈ s.conds, isLeader s (shardOf r.2.upstream) = false → r ∈ (cleanupTimeout shardOf s now).conds := by
+  intro r hr hl
+  exact List.mem_filter.2 ⟨hr, by simp [deletable, hl]⟩
+
+/-- … and by the unknown pass, as long as the upstream is listed (the deletion of an upstream is not guarded). -/
+theorem c18_unknown_pass_respects_leadership (s : State) :
+    ∀ r ∈ s.conds, isLeader s (shardOf r.2.upstream) = false → isListed s r.2.upstream = true →
+      r ∈ (cleanupUnknown shardOf s).conds := by
+  intro r hr hl hlisted
+  simp only [cleanupUnknown, List.mem_filter]
+  refine ⟨⟨hr, by simp [deletable, hl]⟩, ?_⟩
+  cases hc : ((s.conds.filter fun r => unknown s r.2 && !isListed s r.2.upstream).map (·.2.upstream)).contains r.2.upstream
+  · rfl
+  · exfalso
+    rw [List.contains_iff_mem] at hc
+    obtain ⟨r', hr', he⟩ := List.mem_map.1 hc
+    have := (List.mem_filter.1 hr').2
+    simp [he, hlisted] at this
+
+theorem c18_passes_respect_leadership (s : State) (now : Nat) :
+    ForeignKept shardOf false s (cleanupTimeout shardOf s now) ∧ ForeignKept shardOf true s (cleanupUnknown shardOf s) :=
+  ⟨fun r hr hl _ => c18_timeout_pass_respects_leadership shardOf s now r hr hl,
+   fun r hr hl hli => c18_unknown_pass_respects_leadership shardOf s r hr hl (hli rfl)⟩
+
+/-! ## Reports, acquires and heartbeats -/
+
+/-- **The recorded sum is recomputed**: a report that is answered leaves, in the upstream state condition, exactly the
+    sums of the quotas of the conditions now stored for that upstream. -/
+theorem c18_report_records_sum (s : State) (u : Ups) (j : Inst) (ri : List (Str × Kind)) (q : List Item) (l : Str)
+    (h : (report shardOf s u j ri q).2 = .reported l) :
+    SumRecorded shardOf u (report shardOf s u j ri q).1 := by
+  obtain ⟨_, upc, hupc, e⟩ := report_ok shardOf s u j ri q l h
+  obtain ⟨_, hu, hn⟩ := getCond_some s _ _ _ _ hupc
+  rw [e]
+  have hs := state_saved s (saveCond s.conds (shardOf u) ⟨condName u j, u, j, some l, q, []⟩) (shardOf u) u
+    ({ upc with status := calcSums (summed (saveCond s.conds (shardOf u) ⟨condName u j, u, j, some l, q, []⟩)
+        (shardOf u) u) } : Cond) hu hn
+  unfold SumRecorded
+  rw [hs.1]
+  simp only
+  rw [hs.2]
+  exact ⟨fun _ h => h, fun _ h => h⟩
+
+/-- **The freed quota is available** (`c18_reclaim`, second half): once no condition of `i` is left in the led shards,
+    the next answered report of any other instance `j` for `u` leaves a recorded sum that is the sum over conditions
+    none of which belongs to `i`. -/
+theorem c18_survivor_report_excludes_dead (s : State) (i j : Inst) (u : Ups) (ri : List (Str × Kind)) (q : List Item)
+    (l : Str) (hij : j ≠ i) (hgone : NoCondLed shardOf i s)
+    (h : (report shardOf s u j ri q).2 = .reported l) :
+    SumRecorded shardOf u (report shardOf s u j ri q).1 ∧
+    ∀ c ∈ summed (report shardOf s u j ri q).1.conds (shardOf u) u, c.inst ≠ i := by
+  refine ⟨c18_report_records_sum shardOf s u j ri q l h, ?_⟩
+  obtain ⟨hl, upc, hupc, e⟩ := report_ok shardOf s u j ri q l h
+  have hupcn : upc.name = stateName u := (getCond_some s _ _ _ _ hupc).2.2
+  rw [e]
+  intro c hc
+  obtain ⟨hmem, hcu, hcn⟩ := mem_summed _ _ _ _ hc
+  rcases mem_saveCond _ _ _ _ hmem with h1 | h1
+  · rcases mem_saveCond _ _ _ _ h1 with h2 | h2
+    · intro hci
+      have := hgone _ h2 hci
+      simp only at this
+      rw [hcu, hl] at this
+      cases this
+    · simp only [Prod.mk.injEq] at h2
+      rw [h2.2]; exact hij
+  · simp only [Prod.mk.injEq] at h1
+    exact absurd (by rw [h1.2]; exact hupcn) hcn
+
+/-- **Heartbeats are recorded**, and nobody else's entry changes. -/
+theorem c18_heartbeat_recorded (s : State) (i : Inst) (t : Nat) : HeartbeatRecorded i t s (heartbeat s i t) := by
+  refine ⟨by simp [heartbeat], ?_, ?_, ?_⟩
+  · intro p hp hi
+    simp only [heartbeat, List.mem_append, List.mem_filter, List.mem_singleton] at hp
+    cases hp with
+    | inl h => simp [hi] at h
+    | inr h => rw [h]
+  · intro p hp hne
+    simp only [heartbeat, List.mem_append, List.mem_filter, List.mem_singleton]
+    exact Or.inl ⟨hp, by simp [hne]⟩
+  · intro p hp hne
+    simp only [heartbeat, List.mem_append, List.mem_filter, List.mem_singleton] at hp
+    cases hp with
+    | inl h => exact h.1
+    | inr h => rw [h] at hne; exact absurd rfl hne
+
+/-- **A report of `j` removes nothing recorded for another instance**, except what is stored under `j`'s own
+    condition name and the upstream state condition, which it rewrites. -/
+theorem c18_report_keeps_others (s : State) (u : Ups) (j : Inst) (ri : List (Str × Kind)) (q : List Item) :
+    OthersKept (some u) j s (report shardOf s u j ri q).1 := by
+  intro p hp hne
+  refine ⟨by rw [(report_frame shardOf s u j ri q).1]; exact hp, ?_, ?_⟩
+  · intro r hr _
+    exact ⟨r, by rw [(report_frame shardOf s u j ri q).2.1]; exact hr, rfl, rfl, rfl, rfl⟩
+  · intro r hr _ hnk
+    have hnk' := hnk u rfl
+    cases hout : (report shardOf s u j ri q).2 with
+    | reported l =>
+      obtain ⟨_, upc, hupc, e⟩ := report_ok shardOf s u j ri q l hout
+      rw [e]
+      simp only
+      obtain ⟨_, hu, hn⟩ := getCond_some s _ _ _ _ hupc
+      apply mem_saveCond_of_ne
+      · apply mem_saveCond_of_ne _ _ _ _ hr
+        intro hk; exact hnk' ⟨hk.2.1, Or.inl hk.2.2⟩
+      · intro hk
+        exact hnk' ⟨by rw [hk.2.1]; exact hu, Or.inr (by rw [hk.2.2]; exact hn)⟩
+    | unit => exact report_unchanged_conds shardOf s u j ri q (by rw [hout]; intro l; simp) ▸ hr
+    | err e => exact report_unchanged_conds shardOf s u j ri q (by rw [hout]; intro l; simp) ▸ hr
+    | acquired rs => exact report_unchanged_conds shardOf s u j ri q (by rw [hout]; intro l; simp) ▸ hr
+
+/-- **An acquire of `j` removes nothing recorded for another instance.** -/
+theorem c18_acquire_keeps_others (s : State) (u : Ups) (j : Inst) (rid : Int) (reqs : List (Str × Int)) :
+    OthersKept none j s (acquire shardOf s u j rid reqs).1 := by
+  intro p hp hne
+  refine ⟨by rw [acquire_hb]; exact hp, ?_, ?_⟩
+  · intro r hr _
+    exact acquire_kept shardOf hne s u rid reqs r hr
+  · intro r hr _ _
+    rw [acquire_conds]; exact hr
+
+/-! ## Histories -/
+
+/-- **Reclaim (`c18_reclaim`)**. Take ANY state `s0` (so: after any history), let `i` send its last heartbeat at `t0`,
+    then let anything happen in which `i` takes no part (`ops2`), run a time-out pass at some `now > t0 + timeout`,
+    let anything happen again without `i` (`ops3`, other instances may join, report, acquire, leadership may move,
+    further passes may run at any time), run an unknown pass. Then
+    * right after the time-out pass `i` has no heartbeat entry and no in-flight state in any store, and
+    * after the unknown pass, additionally, no condition of `i` is left in any shard this server leads. -/
+theorem c18_reclaim (s0 : State) (i : Inst) (t0 now : Nat) (ops2 ops3 : List Op)
+    (hi : i ≠ []) (hq2 : Quiet i ops2) (hq3 : Quiet i ops3) (hnow : now > t0 + timeout) :
+    let s3 := cleanupTimeout shardOf (run shardOf (heartbeat s0 i t0) ops2) now
+    let s5 := cleanupUnknown shardOf (run shardOf s3 ops3)
+    (NoHb i s3 ∧ NoState i s3) ∧ (NoHb i s5 ∧ NoState i s5 ∧ NoCondLed shardOf i s5) := by
+  intro s3 s5
+  have hls := lastSeen_run shardOf ops2 hq2 _ (lastSeen_heartbeat s0 i t0)
+  have hstep := lastSeen_step shardOf _ (.cleanupTimeout now) (by simp [Op.isBy]) hls
+  have hno3 : NoHb i s3 := by
+    intro p hp hpi
+    have hp' := List.mem_filter.1 hp
+    have ht : p.2 = t0 := hls.1 p hp'.1 hpi
+    have : timedOut now p = true := by simp [timedOut, ht, hnow]
+    simp [this] at hp'
+  have hgone3 : NoHb i s3 ∧ NoState i s3 := ⟨hno3, hstep.2 hno3⟩
+  have hgone4 := gone_run shardOf ops3 hq3 s3 hgone3
+  have hno5 : NoHb i s5 := hgone4.1
+  refine ⟨hgone3, hno5, cleanupUnknown_noState shardOf _ hgone4.2, ?_⟩
+  intro r hr hri
+  cases hl : isLeader s5 (shardOf r.2.upstream)
+  · rfl
+  · exfalso
+    rcases (c18_unknown_pass_reclaims shardOf (run shardOf s3 ops3)).1 r hr hl with h | h
+    · exact hi (hri ▸ h)
+    · obtain ⟨p, hp, hpe⟩ := List.any_eq_true.1 h
+      exact hno5 p hp (by rw [hri] at hpe; simpa using hpe)
+
+/-- The same, spelled as one history from the initial state. -/
+theorem c18_reclaim_history (ops1 ops2 ops3 : List Op) (i : Inst) (t0 now : Nat)
+    (hi : i ≠ []) (hq2 : Quiet i ops2) (hq3 : Quiet i ops3) (hnow : now > t0 + timeout) :
+    let s := run shardOf init
+      (ops1 ++ [Op.heartbeat i t0] ++ ops2 ++ [Op.cleanupTimeout now] ++ ops3 ++ [Op.cleanupUnknown])
+    NoHb i s ∧ NoState i s ∧ NoCondLed shardOf i s := by
+  intro s
+  have h := (c18_reclaim shardOf (run shardOf init ops1) i t0 now ops2 ops3 hi hq2 hq3 hnow).2
+  have e : s = cleanupUnknown shardOf (run shardOf (cleanupTimeout shardOf
+      (run shardOf (heartbeat (run shardOf init ops1) i t0) ops2) now) ops3) := by
+    simp only [s, run_append, run_cons]
+    rfl
+  rw [e]; exact h
+
+
+/-- **Live instances are left alone (`c18_live_safe`)**: in EVERY history, at every clean-up pass, whatever its timing:
+    the time-out pass at `now` takes nothing from an instance none of whose heartbeats is older than the time-out at
+    `now`; the unknown pass takes nothing (in listed upstreams) from an instance that has a heartbeat entry. -/
+theorem c18_live_safe (ops : List Op) (now : Nat) :
+    LiveSafeTimeout now (run shardOf init ops) (run shardOf init (ops ++ [Op.cleanupTimeout now])) ∧
+    LiveSafeUnknown (run shardOf init ops) (run shardOf init (ops ++ [Op.cleanupUnknown])) := by
+  rw [run_append, run_append]
+  exact ⟨c18_live_safe_timeout_pass shardOf _ now, c18_live_safe_unknown_pass shardOf _⟩
+
+/-- **Return with a new identity (`c18_return`, first half)**: the old identity `i` goes silent and is timed out,
+    the gateway comes back as `i' ≠ i` (heartbeats, reports, acquires of `i'` are part of `ops3`, like anything else
+    that is not an action of `i`): after the next unknown pass nothing of the old identity is left, and that pass took
+    nothing from `i'` if `i'` has a heartbeat entry. -/
+theorem c18_return_new_identity (s0 : State) (i i' : Inst) (t0 now t1 : Nat) (ops2 opsA opsB : List Op)
+    (hi : i ≠ []) (hne : i' ≠ i) (hq2 : Quiet i ops2) (hqA : Quiet i opsA) (hqB : Quiet i opsB)
+    (hnow : now > t0 + timeout) :
+    let s3 := cleanupTimeout shardOf (run shardOf (heartbeat s0 i t0) ops2) now
+    let s4 := run shardOf s3 (opsA ++ [Op.heartbeat i' t1] ++ opsB)
+    let s5 := cleanupUnknown shardOf s4
+    (NoHb i s5 ∧ NoState i s5 ∧ NoCondLed shardOf i s5) ∧ LiveSafeUnknown s4 s5 := by
+  intro s3 s4 s5
+  have hq3 : Quiet i (opsA ++ [Op.heartbeat i' t1] ++ opsB) := by
+    intro op hop
+    simp only [List.mem_append, List.mem_singleton] at hop
+    rcases hop with (h | h) | h
+    · exact hqA op h
+    · subst h; simp [Op.isBy, hne]
+    · exact hqB op h
+  exact ⟨(c18_reclaim shardOf s0 i t0 now ops2 _ hi hq2 hq3 hnow).2, c18_live_safe_unknown_pass shardOf s4⟩
+
+/-- **Return with the old identity (`c18_return`, second half)**: once the time-out pass has forgotten `i`
+    (`NoState i s`: see `c18_reclaim`; it stays so while `i` is silent), the first acquire of the returning `i` on a flow
+    control is never refused as `RequestIDTooOld`, whatever request id it restarts from: no stale request id and no
+    stale in-flight count of the old incarnation is left to compare with. -/
+theorem c18_return_old_identity (s : State) (i : Inst) (rid : Int) (sh : Nat) (u : Ups) (rq : Str × Int)
+    (hgone : NoState i s) : (acquireOne i rid sh u s rq).2.2.2.2 ≠ "tooOld" := by
+  unfold acquireOne
+  split
+  · simp
+  · rename_i f hf
+    split
+    · simp
+    · split
+      · simp
+      · rename_i hneg hm
+        have hmem : ∃ r ∈ s.fcs, r.2.2 = f := by
+          unfold getFlowControl at hf
+          obtain ⟨r, hr, hr2⟩ := Option.map_eq_some_iff.1 hf
+          exact ⟨r, List.mem_of_find?_eq_some hr, hr2⟩
+        obtain ⟨r, hr, hrf⟩ := hmem
+        have hmif : f.isMif = true := by simpa using hm
+        have hnone : f.getState i = none := by
+          rw [getState_none_iff]; rw [← hrf]; exact hgone r hr (by rw [hrf]; exact hmif)
+        have hold : (setState f i rid rq.2).2.2.2 = false := by
+          unfold setState
+          have hnn : ¬ rq.2 < 0 := hneg
+          simp only [hmif, hnone, Option.getD_none, hnn]
+          simp only [Bool.not_true, Bool.false_eq_true, if_false]
+          have : ¬ (rid > 0 ∧ rid ≤ 0) := by omega
+          simp only [this, if_false]
+          repeat' split
+          all_goals rfl
+        simp only []
+        generalize hres : setState f i rid rq.2 = res at hold
+        obtain ⟨f', acc, latest, old⟩ := res
+        simp only at hold
+        subst hold
+        simp only [Bool.false_eq_true, if_false]
+        split <;> simp
+
+/-! ## What is forgotten is given back -/
+
+/-- **In every history** the total of every global max-in-flight flow control is the int32 sum of the counts it records
+    per instance. Together with `c18_reclaim` (no state of the dead instance is recorded any more) this is
+    "the in-flight requests it had counted for it are forgotten, the freed capacity is available to the others". -/
+theorem c18_counts_consistent (ops : List Op) : CountsConsistent (run shardOf init ops) := by
+  intro r hr hm
+  exact ((run_allFC shardOf closed_good ops init (fun r hr => by cases hr)) r hr hm).2
+
+/-- dropping an instance's state gives exactly its count back. -/
+theorem c18_drop_gives_back (f : FC) (i : Inst) (st : IState) (hm : f.isMif = true) (h : f.getState i = some st) :
+    (f.drop i).count = toI32 (f.count - st.count) ∧ (f.drop i).getState i = none := by
+  refine ⟨?_, (getState_none_iff _ _).2 (drop_removes f i hm)⟩
+  unfold FC.drop
+  simp only [hm, Bool.not_true, Bool.false_eq_true, if_false, h]
+  unfold toI32; omega
+
+theorem c18_judgeState_sound (ops : List Op) : judgeState (run shardOf init ops) = [] := by
+  simp [judgeState, c18_counts_consistent]
+
+/-! ## "Within the cleanup period"
+
+The passes are ops of the model; WHEN they run is the tick schedule of `wait.Until` in `Run` (runtime, not modelled).
+What is pinned here, from the regenerated source facts: which period drives which pass, and that the time-out pass is
+the first thing `sync()` does. If the ticks fire as scheduled, the time-out pass that reclaims the heartbeat entry,
+the in-flight states and the labelled conditions runs at most `ClientHeartBeatTimeout + syncPeriod` after the last
+heartbeat, and the unknown pass that reclaims the remaining (once-reported, unlabelled) conditions at most
+`cleanupPeriod` later. -/
+
+theorem c18_timeout_pass_is_the_sync_tick :
+    KG.Gen.C18.timeoutPassPeriodMs = KG.Gen.C18.syncPeriodMs ∧
+    KG.Gen.C18.syncCalls.head? = some "cleanupTimeoutClient" ∧
+    KG.Gen.C18.unknownPassPeriodMs = KG.Gen.C18.cleanupPeriodMs ∧
+    KG.Gen.C18.reportWritesInstanceLabel = true := by decide
+
+/-- the periods are positive and the time-out pass ticks at least as often as the time-out itself, so the worst
+    case latency of a full reclaim under the scheduled ticks is `timeout + syncPeriod + cleanupPeriod`. -/
+theorem c18_periods_sane :
+    0 < KG.Gen.C18.syncPeriodMs ∧ KG.Gen.C18.syncPeriodMs ≤ timeout ∧ 0 < KG.Gen.C18.cleanupPeriodMs ∧ 0 < timeout := by
+  decide
+
+/-- any time-out pass in the window `(t0 + timeout, ∞)` reclaims: in particular the first scheduled one, which is at
+    most one `syncPeriod` after `t0 + timeout`. -/
+theorem c18_first_tick_after_timeout_reclaims (s0 : State) (i : Inst) (t0 tick : Nat) (ops2 : List Op)
+    (hq2 : Quiet i ops2) (htick : t0 + timeout < tick) (_hsoon : tick ≤ t0 + timeout + KG.Gen.C18.syncPeriodMs) :
+    let s3 := cleanupTimeout shardOf (run shardOf (heartbeat s0 i t0) ops2) tick
+    NoHb i s3 ∧ NoState i s3 := by
+  intro s3
+  have hls := lastSeen_run shardOf ops2 hq2 _ (lastSeen_heartbeat s0 i t0)
+  have hstep := lastSeen_step shardOf _ (.cleanupTimeout tick) (by simp [Op.isBy]) hls
+  have hno3 : NoHb i s3 := by
+    intro p hp hpi
+    have hp' := List.mem_filter.1 hp
+    have ht : p.2 = t0 := hls.1 p hp'.1 hpi
+    have : timedOut tick p = true := by simp [timedOut, ht, htick]
+    simp [this] at hp'
+  exact ⟨hno3, hstep.2 hno3⟩
+
+/-! ## The judge never fires on the model -/
+
+/-- `judgeStep` — the function the harness evaluates on the states observed on the real code — answers "no violation"
+    for every step of the model from every state. -/
+theorem c18_judge_sound (s : State) (op : Op) :
+    judgeStep shardOf s op (Out.isOk (step shardOf s op).2) (step shardOf s op).1 = [] := by
+  cases op with
+  | heartbeat i t => simp [judgeStep, step, c18_heartbeat_recorded]
+  | report u j ri q =>
+    have h2 := c18_report_keeps_others shardOf s u j ri q
+    rcases report_out_cases shardOf s u j ri q with ⟨e, he⟩ | ⟨l, hl⟩
+    · simp [judgeStep, step, he, Out.isOk, h2]
+    · have h1 := c18_report_records_sum shardOf s u j ri q l hl
+      simp [judgeStep, step, hl, Out.isOk, h1, h2]
+  | acquire u j rid reqs => simp [judgeStep, step, c18_acquire_keeps_others]
+  | cleanupTimeout now =>
+    simp [judgeStep, step, c18_timeout_pass_reclaims, c18_live_safe_timeout_pass,
+      (c18_passes_respect_leadership shardOf s now).1]
+  | cleanupUnknown =>
+    simp [judgeStep, step, c18_unknown_pass_reclaims, c18_live_safe_unknown_pass,
+      (c18_passes_respect_leadership shardOf s 0).2]
+  | setLeader sh b => rfl
+  | leaderCheck => rfl
+  | list u sc => rfl
+  | unlist u => rfl
+  | handle u => rfl
+
+
+/-! ## Non-vacuity: a concrete history in which something IS recorded, reclaimed and kept
+
+One shard, upstream `u` with the global max-in-flight schema `f` (max 10), the instance `d` ("dies") and `l` ("lives").
+-/
+section nonvacuous
+
+private def u : Ups := [117]
+private def fcN : Str := [102]
+private def d : Inst := [100]
+private def l : Inst := [108]
+private def sh0 : Ups → Nat := fun _ => 0
+
+private def setup : List Op :=
+  [.setLeader 0 true, .list u [⟨fcN, some 10, none⟩], .leaderCheck,
+   .heartbeat l 1000, .heartbeat d 1000,
+   .report u d [(fcN, .mif)] [⟨fcN, some 3, none⟩], .report u d [(fcN, .mif)] [⟨fcN, some 3, none⟩],
+   .report u l [(fcN, .mif)] [⟨fcN, some 4, none⟩],
+   .acquire u d 1 [(fcN, 2)], .acquire u l 1 [(fcN, 5)]]
+
+/-- `d`'s last heartbeat at 2000, then only `l` acts -/
+private def quiet2 : List Op := [.heartbeat l 4000, .heartbeat l 5500, .acquire u l 2 [(fcN, 6)]]
+private def quiet3 : List Op := [.heartbeat l 6000, .report u l [(fcN, .mif)] [⟨fcN, some 5, none⟩]]
+
+private def sA : State := run sh0 (heartbeat (run sh0 init setup) d 2000) quiet2
+private def sB : State := cleanupTimeout sh0 sA 5600
+private def sC : State := cleanupUnknown sh0 (run sh0 sB quiet3)
+
+-- the hypotheses of `c18_reclaim` hold …
+example : d ≠ [] ∧ Quiet d quiet2 ∧ Quiet d quiet3 ∧ 5600 > 2000 + timeout := by decide
+-- … before the pass `d` has a heartbeat entry, a labelled condition and an in-flight state (count 2 of a total 8) …
+example : ¬ NoHb d sA ∧ ¬ NoState d sA ∧ ¬ NoCondLed sh0 d sA ∧ DeadAt 5600 sA d ∧ LiveAt 5600 sA l := by decide
+example : (sA.fcs.map fun r => (r.2.2.count, r.2.2.states.map fun p => (p.1, p.2.count))) = [(8, [(d, 2), (l, 6)])] := by
+  decide
+-- … afterwards nothing of `d` is left, `l` kept its entry, its condition and its in-flight state, total = 6 …
+example : NoHb d sB ∧ NoState d sB ∧ NoCondLed sh0 d sB := by decide
+example : (sB.fcs.map fun r => (r.2.2.count, r.2.2.states.map fun p => (p.1, p.2.count))) = [(6, [(l, 6)])] := by decide
+example : (sB.conds.map fun r => r.2.inst) = [l, []] ∧ (sB.hb.map (·.1)) = [l] := by decide
+-- … and after `l`'s next report the recorded sum is `l`'s quota alone (it was 3 + 4 before).
+example : (sA.conds.filter (fun r => r.2.name == stateName u)).map (fun r => r.2.status) = [[⟨fcN, some 7, none⟩]] := by
+  decide
+example : (sC.conds.filter (fun r => r.2.name == stateName u)).map (fun r => r.2.status) = [[⟨fcN, some 5, none⟩]] := by
+  decide
+
+/-- a once-reported condition carries the empty label: it is reclaimed by the unknown pass, not by the time-out pass. -/
+example :
+    let s := run sh0 init [.setLeader 0 true, .list u [⟨fcN, some 10, none⟩], .leaderCheck, .heartbeat d 0,
+      .report u d [(fcN, .mif)] [⟨fcN, some 3, none⟩]]
+    (s.conds.filter (fun r => r.2.inst == d)).map (fun r => r.2.label) = [some []] ∧
+    ¬ NoCondLed sh0 d (cleanupTimeout sh0 s 9000) ∧ NoCondLed sh0 d (cleanupUnknown sh0 (cleanupTimeout sh0 s 9000)) := by
+  decide
+
+/-- the scenario of the repaired defect (findings/C18-invalid-label-selects-everything), in the model: the dead
+    instance's id holds ':' — the live instance's condition is kept. -/
+example :
+    let dc : Inst := [49, 58, 50]   -- "1:2"
+    let s := run sh0 init [.setLeader 0 true, .list u [⟨fcN, some 10, none⟩], .leaderCheck, .heartbeat dc 0, .heartbeat l 0,
+      .report u dc [(fcN, .mif)] [⟨fcN, some 3, none⟩], .report u dc [(fcN, .mif)] [⟨fcN, some 3, none⟩],
+      .report u l [(fcN, .mif)] [⟨fcN, some 4, none⟩], .report u l [(fcN, .mif)] [⟨fcN, some 4, none⟩],
+      .heartbeat l 3500]
+    ((cleanupTimeout sh0 s 4000).conds.map fun r => r.2.inst) = [l, []] := by
+  decide
+
+end nonvacuous
+
 end KG.Props.C18
